@@ -4,6 +4,7 @@ package run
 import (
 	"context"
 	"fmt"
+	"runtime/debug"
 	"time"
 
 	"github.com/itchyny/gojq"
@@ -50,14 +51,24 @@ type Result struct {
 	Err    error // terminal error (first error value emitted), nil if none
 	Budget bool  // the step or output budget ran out: the case must not be judged
 	Polls  int
+	Panic  string // non-empty: gojq panicked (value and a short stack)
 }
 
 // Exec runs code on input collecting outputs until the iterator ends, emits
 // an error, or the budget (VM steps, number of outputs) is exhausted.
-func Exec(code *gojq.Code, input any, maxSteps, maxOut int, vars ...any) Result {
+func Exec(code *gojq.Code, input any, maxSteps, maxOut int, vars ...any) (res Result) {
 	ctx := NewCountCtx(maxSteps)
+	defer func() {
+		if r := recover(); r != nil {
+			st := string(debug.Stack())
+			if len(st) > 1500 {
+				st = st[:1500]
+			}
+			res.Panic = fmt.Sprintf("panic: %v\n%s", r, st)
+			res.Polls = ctx.Polls
+		}
+	}()
 	it := code.RunWithContext(ctx, input, vars...)
-	var res Result
 	for {
 		v, ok := it.Next()
 		if !ok {
